@@ -1,13 +1,13 @@
 SPECIFICATION Spec
 CONSTANTS
-  Addr <- AddrRestart
-  Gaps <- GapsRestartF
+  Addr <- Addr3
+  Gaps <- GapsFixed3
   T = 10
   D = 0
-  MaxEvents = 4
+  MaxEvents = 3
   MaxFails = 0
-  Extra = "none"
-  Backoff = FALSE
+  Extra = "start"
+  Backoff = TRUE
   Closed = TRUE
   ObserveCb = FALSE
   TrackQuiet = FALSE
